@@ -170,3 +170,102 @@ def repl_outputs(stdout):
     body = parts[REPL_HEADER_LINES] if len(parts) > REPL_HEADER_LINES else ''
     chunks = body.split('> ')
     return chunks[1:]     # chunks[0] is the empty text before the first prompt
+
+# ----------------------------------------------------------------------------- statements
+class StmtGen:
+    """random control-flow programs with an OUTPUT trace in every branch and body; loops are bounded
+    by dedicated counters that are advanced at the top of the body (so CONTINUE cannot skip them)"""
+    def __init__(self, rng, env, allow_break=True, pedantic_clean=False):
+        self.rng = rng; self.env = env; self.n = 0; self.allow_break = allow_break and not pedantic_clean
+        self.pedantic_clean = pedantic_clean
+        self.pre = []       # declarations needed by generated statements
+    def fresh(self, p):
+        self.n += 1
+        return '%s%d' % (p, self.n)
+    def cond(self):
+        return expr(self.rng, 'BOOLEAN', self.env, 2)
+    def trace(self, ind, tag):
+        r = self.rng
+        return ['%sOUTPUT "%s ", %s' % (ind, tag, expr(r, r.choice(['INTEGER', 'BOOLEAN', 'STRING', 'REAL']), self.env, 1))]
+    def assign(self, ind):
+        r = self.rng
+        ty = r.choice(['INTEGER', 'INTEGER', 'REAL', 'BOOLEAN', 'STRING', 'CHAR'])
+        v = self.env.pick(r, ty)
+        if not v:
+            return []
+        return ['%s%s <- %s' % (ind, v, expr(r, ty, self.env, 2))]
+    def block(self, depth, ind, in_loop):
+        r = self.rng
+        out = []
+        for _ in range(r.randint(1, 3)):
+            out += self.stmt(depth, ind, in_loop)
+        return out
+    def stmt(self, depth, ind, in_loop):
+        r = self.rng
+        k = r.randint(0, 11) if depth > 0 else r.randint(0, 2)
+        tag = self.fresh('t')
+        if k == 0: return self.trace(ind, tag)
+        if k == 1: return self.assign(ind) + self.trace(ind, tag)
+        if k == 2:
+            if in_loop and self.allow_break and r.random() < 0.5:
+                return ['%sIF %s THEN' % (ind, self.cond()), '%s  %s' % (ind, r.choice(['BREAK', 'CONTINUE'])), '%sENDIF' % ind]
+            return self.trace(ind, tag)
+        if k in (3, 4):      # IF
+            out = ['%sIF %s' % (ind, self.cond()), '%s  THEN' % ind] if r.random() < 0.3 else ['%sIF %s THEN' % (ind, self.cond())]
+            out += self.block(depth - 1, ind + '    ', in_loop)
+            if not self.pedantic_clean:
+                for _ in range(r.randint(0, 2)):
+                    out += ['%sELSE IF %s THEN' % (ind, self.cond())] + self.block(depth - 1, ind + '    ', in_loop)
+            if r.random() < 0.6:
+                out += ['%sELSE' % ind] + self.block(depth - 1, ind + '    ', in_loop)
+            return out + ['%sENDIF' % ind]
+        if k == 5:           # CASE
+            ty = r.choice(['INTEGER', 'INTEGER', 'REAL', 'CHAR', 'STRING', 'BOOLEAN'])
+            v = self.env.pick(r, ty)
+            if not v: return self.trace(ind, tag)
+            out = ['%sCASE OF %s' % (ind, v)]
+            for _ in range(r.randint(1, 4)):
+                if ty in ('INTEGER', 'REAL') and r.random() < 0.5:
+                    a = r.randint(-5, 12); b = a + r.randint(-1, 8)
+                    lab = '%s TO %s' % (neg_lit(a) if ty == 'INTEGER' or r.random() < 0.5 else '%d.5' % abs(a), neg_lit(b))
+                else:
+                    lab = lit(r, ty) if r.random() < 0.7 else expr(r, ty, self.env, 1)
+                body = self.block(depth - 1, ind + '        ', in_loop)
+                body[0] = '%s    %s : %s' % (ind, lab, body[0].lstrip())
+                out += body
+            if r.random() < 0.6:
+                body = self.block(depth - 1, ind + '        ', in_loop)
+                body[0] = '%s    OTHERWISE : %s' % (ind, body[0].lstrip())
+                out += body
+            return out + ['%sENDCASE' % ind]
+        if k in (6, 7):      # WHILE
+            w = self.fresh('w'); self.pre.append('DECLARE %s : INTEGER' % w)
+            lim = r.randint(0, 4)
+            c = '%s < %d' % (w, lim) if r.random() < 0.6 else '(%s < %d) AND %s' % (w, lim, self.cond())
+            out = ['%s%s <- 0' % (ind, w), '%sWHILE %s%s' % (ind, c, r.choice([' DO', '', ' DO']))]
+            out += ['%s    %s <- %s + 1' % (ind, w, w)] + self.trace(ind + '    ', tag) + self.block(depth - 1, ind + '    ', True)
+            return out + ['%sENDWHILE' % ind]
+        if k == 8:           # REPEAT
+            w = self.fresh('q'); self.pre.append('DECLARE %s : INTEGER' % w)
+            lim = r.randint(1, 4)
+            out = ['%s%s <- 0' % (ind, w), '%sREPEAT' % ind, '%s    %s <- %s + 1' % (ind, w, w)] + self.trace(ind + '    ', tag)
+            out += self.block(depth - 1, ind + '    ', True)
+            c = '%s >= %d' % (w, lim) if r.random() < 0.6 else '(%s >= %d) OR %s' % (w, lim, self.cond())
+            return out + ['%sUNTIL %s' % (ind, c)]
+        if k in (9, 10):     # FOR
+            it = self.fresh('k'); self.pre.append('DECLARE %s : INTEGER' % it) if r.random() < 0.7 else None
+            a = r.randint(-3, 3); b = r.randint(-3, 3)
+            st = r.choice([None, 1, 2, -1, -2, 3, -3])
+            A = neg_lit(a) if r.random() < 0.7 else '%s + %s' % (neg_lit(a), self.env.pick(r, 'INTEGER') or '0')
+            B = neg_lit(b) if r.random() < 0.7 else '%s - %s' % (neg_lit(b), self.env.pick(r, 'INTEGER') or '0')
+            hdr = '%sFOR %s <- %s TO %s' % (ind, it, A, B) + ('' if st is None else ' STEP %s' % neg_lit(st))
+            out = [hdr, '%s    OUTPUT "%s it=", %s' % (ind, tag, it)] + self.block(depth - 1, ind + '    ', True)
+            if r.random() < 0.15:
+                iv = self.env.pick(r, 'INTEGER')
+                if iv: out.append('%s    %s <- %s + 1' % (ind, iv, iv))
+            out += ['%sNEXT%s' % (ind, r.choice(['', ' ' + it]))]
+            return out + ['%sOUTPUT "%s after=", %s' % (ind, tag, it)]
+        return self.trace(ind, tag)
+
+def neg_lit(k):
+    return '-%d' % (-k) if k < 0 else str(k)
